@@ -12,7 +12,7 @@ for l in open('/verif/properties.jsonl'):
         break
 else:
     sys.exit("no such property")
-extra = (", but spread the four changes over different files where the property involves several (helpers, secondary implementations such as the reflection-based codec, generated-code emitters, client side versus server side, shutdown and error paths), and make at least one change a combination of two refactorings (e.g. extract a helper AND switch the loop form)" if rnd == "3" else (", and for this round favour these kinds of change, wherever they can be done without changing behaviour: table-driven rewrites (a switch or if-chain replaced by a lookup table, or the reverse); an anonymous goroutine or closure turned into a named method or function (parameters instead of captured variables) and the reverse; accessor helpers that take the lock themselves; a loop rewritten with a different exit style (break / early return / flag / index found then used after the loop); error values wrapped or renamed; a struct split in two or two fields merged into a small struct; a function moved to a new file. Spread the four changes over different files, including helpers and secondary implementations (generated-code emitters, the reflection-based codec, the client side), and make each change touch 15-50 lines" if rnd == "4" else (', and for this round favour these kinds of change, wherever they can be done without changing behaviour: defensive code written in a different style from its surroundings (a bounds or nil check moved into a small predicate helper, min/clamp helpers, a len() test instead of a nil test or the reverse, an explicit and equivalent fast path for the empty case); decoding or encoding steps of handlers, proxies and other callers of the codecs moved into small private helpers, with or without an error result of their own, keeping every error handled exactly as before; a different way of returning results (named results instead of plain returns or the reverse, a small result struct, an out-parameter); make-then-index replaced by append or the reverse; values threaded through small adapter functions, method values or function-typed fields; a mutex-protected field accessed through getter/setter helpers. Spread the four changes over different files and go AWAY from the most central function of the property: its callers, adapters, constructors, the client side when the server side is central, helper packages. Make each change touch 15-50 lines' if rnd == "5" else "")))
+extra = (", but spread the four changes over different files where the property involves several (helpers, secondary implementations such as the reflection-based codec, generated-code emitters, client side versus server side, shutdown and error paths), and make at least one change a combination of two refactorings (e.g. extract a helper AND switch the loop form)" if rnd == "3" else (", and for this round favour these kinds of change, wherever they can be done without changing behaviour: table-driven rewrites (a switch or if-chain replaced by a lookup table, or the reverse); an anonymous goroutine or closure turned into a named method or function (parameters instead of captured variables) and the reverse; accessor helpers that take the lock themselves; a loop rewritten with a different exit style (break / early return / flag / index found then used after the loop); error values wrapped or renamed; a struct split in two or two fields merged into a small struct; a function moved to a new file. Spread the four changes over different files, including helpers and secondary implementations (generated-code emitters, the reflection-based codec, the client side), and make each change touch 15-50 lines" if rnd == "4" else (', and for this round favour these kinds of change, wherever they can be done without changing behaviour: defensive code written in a different style from its surroundings (a bounds or nil check moved into a small predicate helper, min/clamp helpers, a len() test instead of a nil test or the reverse, an explicit and equivalent fast path for the empty case); decoding or encoding steps of handlers, proxies and other callers of the codecs moved into small private helpers, with or without an error result of their own, keeping every error handled exactly as before; a different way of returning results (named results instead of plain returns or the reverse, a small result struct, an out-parameter); make-then-index replaced by append or the reverse; values threaded through small adapter functions, method values or function-typed fields; a mutex-protected field accessed through getter/setter helpers. Spread the four changes over different files and go AWAY from the most central function of the property: its callers, adapters, constructors, the client side when the server side is central, helper packages. Make each change touch 15-50 lines' if rnd == "5" else (', and for this round favour these kinds of change, wherever they can be done without changing behaviour: modernisation and tidying that touches MANY small places at once rather than one function — error values wrapped with %w or given a sentinel where nobody compares them, `interface{}` helper signatures narrowed to concrete types, value receivers turned into pointer receivers (or the reverse) where the method set and copies do not matter, small named types introduced for identifiers (type handlerID int, type actionID uint32) with conversions at the boundaries, struct fields grouped into an embedded struct, constants grouped into typed const blocks, switch statements on types or kinds reordered or merged, duplicated code across the two generated copies of a type left alone but their hand-written users unified, dead parameters removed, boolean parameters replaced by two functions; plus the restructuring of control flow inside loops that decode, dispatch or walk tables (labelled break/continue, loop bodies moved to a method, a `for {}` with explicit exit instead of a condition, range over an index copy). Spread the four changes over different files including at least one helper package (type/basic, type/value, meta/signature, bus/util, bus/net) and one user of the central code. Make each change touch 20-60 lines' if rnd == "6" else ""))))
 print(f"""You are helping test a verification effort on an open-source Go project, lugu/qiloop (a Go implementation of SoftBank's QiMessaging RPC protocol: wire format, type-signature codec, IDL parser and proxy/stub generator, client/server bus, service directory).
 
 Your own scratch git worktree of the project is at {wt} (detached HEAD of the project's current commit). Work ONLY inside {wt} and write your results to {out}/. Do NOT read or touch /repo, /verif, /root/.vp or other directories under /tmp/wt, /tmp/mut or /tmp/ben: your work must be independent.
